@@ -70,9 +70,9 @@ def one_order(scn, defn, spec, prefix, pick=None):
 def writers(ir):
     w = collections.defaultdict(set)
     for name, t in ir["tasks"].items():
-        for tr in t.get("next") or []:
+        for i, tr in enumerate(t.get("next") or []):
             for var, _ in tr.get("publish") or []:
-                w[var].add(name)
+                w[var].add((name, i))
     return w
 
 
@@ -87,7 +87,10 @@ def run(scn, stats):
         ws = sorted(ws)
         for i in range(len(ws)):
             for j in range(i + 1, len(ws)):
-                if ws[j] not in rch[ws[i]] and ws[i] not in rch[ws[j]]:
+                (ta, ia), (tb, ib) = ws[i], ws[j]
+                # two transitions of one task fire together (independent branches); two tasks are
+                # concurrent unless one is reachable from the other
+                if ta == tb or (tb not in rch[ta] and ta not in rch[tb]):
                     concurrent.add(var)
     joinN = {n for n, t in ir["tasks"].items() if isinstance(t.get("join"), int) and t["join"] < len(lang.inbound(ir)[n])}
     results = []
@@ -170,7 +173,7 @@ def run(scn, stats):
                     continue
                 if common.jd(base["output"].get(k)) != common.jd(r["output"].get(k)):
                     vals = sorted({common.jd(x["output"].get(k)) for _, x in leaves})
-                    raise Violation("output-depends-on-order", dict(info, variable=var, values=vals, writers=sorted(wr.get(var, [])), order_a=base_path, order_b=p))
+                    raise Violation("output-depends-on-order", dict(info, variable=var, values=vals, writers=sorted({t for t, _ in wr.get(var, [])}), order_a=base_path, order_b=p))
     stats.label("status:" + base["status"], "exhaustive" if exhaustive else "sampled")
     multi = any(t.get("join") is not None or lang.is_split(ir, n) for n, t in ir["tasks"].items())
     if len(leaves) >= 2 and multi:
